@@ -333,11 +333,12 @@ def depends_on_symbol(e, sym):
         return True
 
 
-def add_offsets(rng, e, p=0.5, offs=(-2, -1, 1, 2, 3)):
-    """wrap some state/control leaves of e into next/prev/offset placeholders"""
+def add_offsets(rng, e, p=0.5, offs=(-2, -1, 1, 2, 3), extra=()):
+    """wrap some state/control leaves of e (and leaves of the kinds in `extra`: "t", "DT", "DTc") into next/prev/offset
+    placeholders"""
     if not isinstance(e, list):
         return e
-    if e[0] == "s" and e[1] in ("x", "u", "pc", "pp", "vc", "vp") and rng.random() < p:
+    if e[0] == "s" and e[1] in ("x", "u", "pc", "pp", "vc", "vp") + tuple(extra) and rng.random() < p:
         n = rng.choice(offs)
         r = ["off", n, e]
         if n == 1 and rng.random() < 0.5:
@@ -346,11 +347,11 @@ def add_offsets(rng, e, p=0.5, offs=(-2, -1, 1, 2, 3)):
             r.append("prev")
         return r
     if e[0] in ("+", "-", "*", "/"):
-        return [e[0], add_offsets(rng, e[1], p, offs), add_offsets(rng, e[2], p, offs)]
+        return [e[0], add_offsets(rng, e[1], p, offs, extra), add_offsets(rng, e[2], p, offs, extra)]
     if e[0] == "neg":
-        return ["neg", add_offsets(rng, e[1], p, offs)]
+        return ["neg", add_offsets(rng, e[1], p, offs, extra)]
     if e[0] == "pow":
-        return ["pow", add_offsets(rng, e[1], p, offs), e[2]]
+        return ["pow", add_offsets(rng, e[1], p, offs, extra), e[2]]
     return e
 
 
